@@ -234,10 +234,37 @@ def _reduce_axis(a, axis, fn):
     return out.view(SymNd)
 
 
+def _nan_split(a):
+    """(words that are NaN, the other elements) of an object array / list, or None when it holds no NaN word."""
+    if not core._nan_made[0] or not (isinstance(a, _np.ndarray) and a.dtype == object):
+        return None
+    flat = list(_np.asarray(a).reshape(-1))
+    nans = [x for x in flat if core.is_nanword(x)]
+    if not nans:
+        return None
+    return nans, [x for x in flat if not core.is_nanword(x)]
+
+
+def nnanmin(a, axis=None, **k):
+    sp = _nan_split(a) if axis is None else None
+    if sp is None:
+        return nmin(a, axis, **k)
+    return nmin(objarr(sp[1])) if sp[1] else sp[0][0]
+
+
+def nnanmax(a, axis=None, **k):
+    sp = _nan_split(a) if axis is None else None
+    if sp is None:
+        return nmax(a, axis, **k)
+    return nmax(objarr(sp[1])) if sp[1] else sp[0][0]
+
+
 def nmin(a, axis=None, **k):
     from . import lv as _lv
     if isinstance(a, _lv.LV):
         return _lv.MinMax(a, 'min', axis)
+    if axis is None and _nan_split(a) is not None:
+        return _nan_split(a)[0][0]          # np.min / np.max of data holding a NaN is NaN
     if isinstance(a, _np.ndarray) and a.dtype == object and _has_sym(a):
         return _reduce_axis(a, axis, core.smin)
     if isinstance(a, (list, tuple)) and _has_sym(a):
@@ -249,6 +276,8 @@ def nmax(a, axis=None, **k):
     from . import lv as _lv
     if isinstance(a, _lv.LV):
         return _lv.MinMax(a, 'max', axis)
+    if axis is None and _nan_split(a) is not None:
+        return _nan_split(a)[0][0]
     if isinstance(a, _np.ndarray) and a.dtype == object and _has_sym(a):
         return _reduce_axis(a, axis, core.smax)
     if isinstance(a, (list, tuple)) and _has_sym(a):
@@ -275,6 +304,8 @@ def isclose(a, b, rtol=1e-05, atol=1e-08, equal_nan=False):
     def one(x, y):
         if isinstance(x, Garbage) or isinstance(y, Garbage):
             return False
+        if core.is_nanword(x) or core.is_nanword(y):
+            return _np.bool_(bool(equal_nan) and core.is_nanword(x) and core.is_nanword(y))
         if not (core.is_sym(x) or core.is_sym(y)):
             return bool(_np.isclose(x, y, rtol=rtol, atol=atol))
         tx, ty = core.real_term(x), core.real_term(y)
@@ -721,7 +752,7 @@ _OVERRIDES = {
     'fromfile': fromfile, 'save': save, 'savez': savez, 'savez_compressed': savez_compressed,
     'load': load, 'empty': empty, 'empty_like': empty_like, 'zeros': zeros, 'ones': ones,
     'zeros_like': zeros_like, 'ones_like': ones_like, 'min': nmin, 'max': nmax, 'amin': nmin,
-    'amax': nmax, 'nanmin': nmin, 'nanmax': nmax, 'isclose': isclose, 'allclose': allclose,
+    'amax': nmax, 'nanmin': nnanmin, 'nanmax': nnanmax, 'isclose': isclose, 'allclose': allclose,
     'where': where, 'nonzero': nonzero, 'flatnonzero': flatnonzero,
     'count_nonzero': count_nonzero, 'any': nany, 'all': nall, 'array': array,
     'linspace': linspace, 'sum': nsum, 'isnan': nisnan, 'asarray': asarray, 'asanyarray': asarray,
